@@ -429,6 +429,7 @@ class BaseParser:
     ):
         addition = {}
         result = {}
+        provided_values = {}
         dependencies = set()
         unprovided_fields = set()
         options = context.options
@@ -453,14 +454,16 @@ class BaseParser:
                 continue
 
             if not options.ignore_alias_conflicts:
-                if name in result:  # or (excluded_keys and name in excluded_keys):
-                    if result[name] != value:
+                if name in provided_values:  # or (excluded_keys and name in excluded_keys):
+                    # compare the input values (like field_first_parse does), not the parsed result
+                    if provided_values[name] != value:
                         context.handle_error(exc.AliasConflictError(item=name, value=value))
                     continue
 
             if excluded_keys and name in excluded_keys:
                 continue
 
+            provided_values[name] = value
             parsed = field.parse_value(value, context=context)
             if unprovided(parsed):
                 continue
@@ -476,7 +479,8 @@ class BaseParser:
             # if required field is ignored. we do not need to check for required fields
             for key, field in self.fields.items():
                 name = field.attname if as_attname else field.name
-                if name in result:
+                if name in result or name in provided_values:
+                    # provided values that failed to parse are reported by their own error
                     continue
                 if excluded_keys and name in excluded_keys:
                     continue
